@@ -120,9 +120,21 @@ def generate(tier, seed, casedir, variant):
                 g, _b = g.get_batch()
             viol += check_generator(name, g, lambda x: x.get_batch(), dict(what="generator", name=name))
             n_eval += 1; dist[name] = dist.get(name, 0) + 1
+    # the library's default precision is 32 bits: fresh generators (whose cursor starts near the int32 maximum) are drawn
+    # from eagerly and under jit in that mode too, with batch sizes leaving remainders 0, 1, 2 and 3
+    with jax.enable_x64(False):
+        for (n, b) in [(14, 4), (11, 3), (12, 4), (13, 4), (23, 7)] if tier == "quick" else [(n, b) for n in range(4, 24, 3) for b in (2, 3, 4, 7) if b <= n]:
+            k = jax.random.PRNGKey(rng.randrange(1 << 20))
+            xs = jnp.arange(n, dtype=jnp.float32)[:, None]
+            for name, g in [("DataGeneratorODE (32-bit)", jinns.data.DataGeneratorODE(k, n, 0.0, 1.0, b)),
+                            ("CubicMeshPDEStatio (32-bit)", jinns.data.CubicMeshPDEStatio(key=k, n=n, nb=None, omega_batch_size=b, omega_border_batch_size=None, dim=2, min_pts=(0.0, 0.0), max_pts=(1.0, 1.0))),
+                            ("DataGeneratorObservations (32-bit)", jinns.data.DataGeneratorObservations(k, b, xs, xs + 1.0)),
+                            ("DataGeneratorParameter (32-bit)", jinns.data.DataGeneratorParameter(k, n, b, {"nu": (0.0, 1.0)}))]:
+                viol += check_generator(name, g, lambda x: x.get_batch(), dict(what="generator32", name=name, n=n, b=b))
+                n_eval += 1; dist["32-bit generators"] = dist.get("32-bit generators", 0) + 1
     samples = [dict(what="single loss / system loss / generator", checks=["arguments bitwise unchanged", "repeatable", "eager = jit", "eager = value_and_grad primal"])]
     return dict(meta={}, oracle_violations=viol, evaluations=n_eval, distinct_nontrivial=n_eval, samples=samples, distribution=dist,
-                rule="random single losses (every optional part on/off, parameter batches, observed parameters, heterogeneity), random systems with a parameter batch, six generator kinds after 0..3 earlier draws; every argument (parameters, batch, loss object, generator) snapshotted bitwise before and after; repeated call; eager vs jit vs value_and_grad primal (relative tolerance 1e-12); all cases are non-trivial and distinct",
+                rule="random single losses (every optional part on/off, parameter batches, observed parameters, heterogeneity), random systems with a parameter batch, six generator kinds after 0..3 earlier draws, and fresh generators in the library's default 32-bit mode for batch sizes leaving remainders 0..3; every argument (parameters, batch, loss object, generator) snapshotted bitwise before and after; repeated call; eager vs jit vs value_and_grad primal (relative tolerance 1e-12); all cases are non-trivial and distinct",
                 oracle_checks=n_eval)
 
 
